@@ -14,11 +14,18 @@ PROBS = [Fraction(1, 2), Fraction(1, 3), Fraction(1, 4), Fraction(2, 3), Fractio
 
 class G:
     def __init__(self, rng, finite_only=True, guard=None, max_depth=2, allow_simult=True, allow_nested_reassign=False,
-                 params=False, n_fin=None, n_acc=None):
+                 params=False, n_fin=None, n_acc=None, rational=False):
         self.rng = rng
         self.fin = [f"f{i}" for i in range(n_fin if n_fin is not None else rng.randint(1, 3))]
         self.acc = [f"a{i}" for i in range(n_acc if n_acc is not None else rng.randint(0, 2))]
         self.vals = {f: sorted(rng.sample([0, 1, 2, 3, -1], rng.randint(2, 3))) for f in self.fin}
+        self.rational = rational
+        if rational:
+            # finite types with non-integer values; atoms compare against integers AND half-integers
+            pool = [0, Fraction(1, 2), 1, Fraction(3, 2), Fraction(-1, 2), 2, Fraction(1, 3)]
+            for f in self.fin:
+                if rng.random() < 0.7:
+                    self.vals[f] = sorted(rng.sample(pool, rng.randint(2, 4)))
         self.max_depth = max_depth
         self.allow_simult = allow_simult
         self.allow_nested_reassign = allow_nested_reassign
@@ -51,7 +58,7 @@ class G:
             k = len(vs)
             ps = self.prob_vector(k)
             return ("draw", ("cat", [P.const(x) for x in ps]))
-        if r < 0.85 and vs == list(range(vs[0], vs[-1] + 1)):
+        if r < 0.85 and all(isinstance(x, int) for x in vs) and vs == list(range(vs[0], vs[-1] + 1)):
             self.features.add("discrete_uniform")
             return ("draw", ("unif", vs[0], vs[-1]))
         others = [g for g in self.fin if g != f and set(self.vals[g]) <= set(vs)]
@@ -106,6 +113,9 @@ class G:
         f = self.rng.choice(self.fin)
         op = self.rng.choice(["==", "==", "<", ">", "<=", ">="])
         v = self.rng.choice(self.vals[f] + [self.vals[f][0]])
+        if self.rational:
+            v = v + self.rng.choice([0, 0, Fraction(1, 2), Fraction(-1, 2), 1, -1])
+            v = int(v) if v == int(v) else v
         return ("atom", P.var(f), op, P.const(v))
 
     def cond(self, depth=0):
@@ -317,6 +327,22 @@ def corpus():
     out.append(({"types": [], "init": [("assign", "w", P.det(c(5))), ("assign", "u", P.det(c(7))), ("assign", "t", P.det(c(7)))], "guard": ("true",),
                  "body": [("assign", "w", P.det(v("u"))), ("assign", "u", P.det(v("t"))), ("assign", "t", P.det(c(0)))]},
                 [{"w": 1}, {"w": 1, "u": 1}], "delay-equal-transients"))
+    # --- finite types with NON-INTEGER values under strict / non-strict comparisons with integers and
+    #     non-integers (get_valid_values; reduced alias _r = x - c with non-integer values)
+    half = lambda x: ("assign", x, ("choice", [(c(F(1, 4)), c(0)), (c(F(1, 4)), c(F(1, 2))), (c(F(1, 4)), c(1)), (c(F(1, 4)), c(F(3, 2)))]))
+    init3 = [("assign", "x", P.det(c(0))), ("assign", "a", P.det(c(0))), ("assign", "b", P.det(c(0)))]
+    for (op1, k1, op2, k2) in [("<", 1, ">", 0), ("<=", 1, ">=", 1), ("<", F(1, 2), ">", F(1, 2)), (">", -1, "<", 2), ("<=", F(3, 4), ">=", F(5, 4))]:
+        out.append(({"types": [], "init": init3, "guard": ("true",),
+                     "body": [half("x"), ("if", [(("atom", v("x"), op1, c(k1)), [inc("a", c(1))])], None),
+                              ("if", [(("atom", v("x"), op2, c(k2)), [inc("b", v("x"))])], None)]},
+                    [{"a": 1}, {"b": 1}, {"a": 1, "b": 1}], f"noninteger-finite:{op1}{k1},{op2}{k2}"))
+    # --- conditioned draw into a variable assigned earlier in the same iteration (default = previous version)
+    out.append(({"types": [], "init": [("assign", "f", P.det(c(0))), ("assign", "x", P.det(c(0))), ("assign", "y", P.det(c(0)))],
+                 "guard": ("true",),
+                 "body": [bern("f", F(1, 3)), ("assign", "x", P.det(("add", v("x"), c(2)))),
+                          ("if", [(eq("f", 1), [("assign", "x", ("draw", ("unif", 2, 4)))])], None),
+                          ("assign", "y", P.det(("add", v("y"), v("x"))))]},
+                [{"x": 1}, {"y": 1}, {"x": 2}], "conditioned-draw-into-reassigned-variable"))
     # README-like random walk with choice
     out.append(({"types": [], "init": [("assign", "x", P.det(c(0))), ("assign", "s", P.det(c(1)))], "guard": ("true",),
                  "body": [("assign", "s", ("choice", [(c(F(1, 2)), c(1)), (c(F(1, 2)), c(-1))])),
@@ -346,6 +372,13 @@ def abstraction_corpus():
                 [{"x": 2}, {"x": 1, "y": 1}], "abstraction:elif-chain-one-draw", sup))
     out.append((prog([("if", [(("atom", v("d"), ">", c(25)), [inc("x", 1), inc("y", 1)])], [inc("y", 3)])]),
                 [{"x": 1, "y": 1}, {"y": 2}], "abstraction:else", sup))
+    # the guarded assignment reads a COPY (descendant) of the abstracted draw: the coin is not independent of it
+    addv = lambda z, w: ("assign", z, P.det(("add", v(z), v(w))))
+    out.append((prog([("assign", "y", P.det(v("d"))), ("if", [(le(15), [addv("x", "y")])], None)]),
+                [{"x": 1}, {"x": 2}], "abstraction:assignment-reads-copy-of-draw", sup))
+    out.append((prog([("assign", "y", P.det(("add", ("mul", c(2), v("d")), c(1)))),
+                      ("if", [(le(10), [addv("x", "y")])], [inc("x", 1)])]),
+                [{"x": 1}], "abstraction:assignment-reads-descendant-of-draw", sup))
     return out
 
 
